@@ -12,6 +12,7 @@ import random
 from .. import common, tlc
 from ..common import Raw
 from ..dilmid import DilMidWorld, Open, Data, Close, Ack
+from ..mbworld import machine_state
 
 OBS_NAMES = ["InOrderOnce", "Goal", "OpensOnce", "NothingAfterLost", "DataInOrder", "IdsDisjoint", "UnexpectedRefused",
              "WriteAfterCloseErrors", "NoInternal", "CloseOnce"]
@@ -414,6 +415,108 @@ def replay_sub(tid, states, names_by_step, expected, half):
     return run, drift
 
 
+SUB_T_PROJ = (
+    '[ends |-> [i \\in Ids |-> [e \\in {"o", "a"} |-> [st |-> IF ends[i][e].st = "refused" THEN "none" ELSE ends[i][e].st, ev |-> ends[i][e].ev]]], '
+    'name |-> name, '
+    'listening |-> [s \\in Sides |-> [n \\in Names |-> n \\in listening[s]]], '
+    'openAt |-> [s \\in Sides |-> SetToSortSeq(openAt[s], <)], '
+    'pending |-> [s \\in Sides |-> [n \\in Names |-> SelectSeq(pending[s], LAMBDA id : name[id] = n)]]]')
+
+
+def sub_projection(run, consts):
+    """the real objects seen through DilationSub.tla's variables (SUB_T_PROJ is the same view of the model)"""
+    nids = 2 * consts["MaxOpens"]
+    w = run.w
+    inv = {v: k for k, v in run.names.items()}
+    ends = []
+    for sid in range(1, nids + 1):
+        pair = {}
+        for e in ("o", "a"):
+            side = ("L" if sid % 2 == 1 else "F") if e == "o" else ("F" if sid % 2 == 1 else "L")
+            p = run.end_proto(sid, e)
+            if p is not None:
+                st = machine_state(p.transport)
+                ev = [[x[0], x[1].decode() if len(x) > 1 else "-"] for x in p.log]
+            else:
+                sc = w.sides[side].m._inbound._open_subchannels.get(sid)
+                # (an opener's SubChannel without a protocol does not occur: connect() builds it at once)
+                st = machine_state(sc) if sc is not None and e == "a" else "none"
+                ev = []
+            pair[e] = {"st": st, "ev": ev}
+        ends.append(pair)
+    names = [run._name_of_id.get(i, "-") for i in range(1, nids + 1)]
+    listening, open_at, pending = {}, {}, {}
+    for n, side in w.sides.items():
+        demux = side.m._subprotocol_factories
+        listening[n] = {m: run.spell(m) in demux._factories for m in sorted(consts["Names"])}
+        open_at[n] = sorted(side.m._inbound._open_subchannels.keys())
+        pending[n] = {m: [t._scid for t, _ in demux._pending_opens.get(run.spell(m), ())] for m in sorted(consts["Names"])}
+    return {"ends": ends, "name": names, "listening": listening, "openAt": open_at, "pending": pending}
+
+
+def sub_real_enabled(run, consts, opened):
+    w = run.w
+    acts = []
+    for s in sorted(consts["Openers"]):
+        if opened[s] < consts["MaxOpens"]:
+            for n in sorted(consts["Names"]):
+                acts.append(("AppOpen", s, n))
+    for s in ("L", "F"):
+        demux = w.sides[s].m._subprotocol_factories
+        for n in sorted(consts["Names"]):
+            if run.spell(n) not in demux._factories:
+                acts.append(("AppListen", s, n))
+        frm = w.sides["F" if s == "L" else "L"]
+        seqd = [r for r in (frm.conn.out if frm.conn is not None else ()) if isinstance(r, (Open, Data, Close))]
+        if seqd:
+            acts += [("Deliver", s, seqd[0].scid)] * 3
+    for sid in range(1, 2 * consts["MaxOpens"] + 1):
+        for e in ("o", "a"):
+            if run.end_proto(sid, e) is None:
+                continue
+            if run._writes.get((sid, e), 0) < consts["MaxWrites"]:
+                acts.append(("AppWrite", e, sid))
+            if len(run.errors.get((sid, e), [])) < 2:
+                acts.append(("AppClose", e, sid))
+    return acts
+
+
+def sub_walk(tid, consts, expected, half, rng, nsteps=30):
+    """Code -> spec for C13: a seeded random walk over what the two real Managers (SubChannel, endpoints, demultiplexer,
+    Inbound) offer, recorded for validation against DilationSub.tla; judged by the observer like every other run."""
+    run = SubRun(expected, half, variant=tid)
+    run._writes = {}
+    run._name_of_id = {}
+    opened = {"L": 0, "F": 0}
+    lines = []
+    for _ in range(nsteps):
+        acts = sub_real_enabled(run, consts, opened)
+        if not acts:
+            break
+        a = rng.choice(acts)
+        if a[0] == "AppOpen":
+            s, n = a[1], a[2]
+            y = (1 if s == "L" else 2) + 2 * opened[s]
+            opened[s] += 1
+            run._name_of_id[y] = n
+            run.do(("AppOpen", s, y))
+            p = run.openers.get(y)
+            real = getattr(getattr(p, "transport", None), "_scid", y) if p is not None else y
+            if real != y:
+                run.openers[real] = run.openers.pop(y)
+                run._name_of_id[real] = run._name_of_id.pop(y)
+            la = ["AppOpen", s, real]
+        elif a[0] == "AppListen":
+            run._listen_name = a[2]
+            run.do(("AppListen", a[1], 0))
+            la = ["AppListen", a[1], 0]
+        else:
+            run.do(a)
+            la = list(a)
+        lines.append({"a": la, "proj": sub_projection(run, consts)})
+    return run, lines
+
+
 def finish_sub(run, tid, expected):
     w = run.w
     # everything still in flight arrives; then every subchannel opened towards a side that listens for its name (and has not
@@ -733,6 +836,38 @@ def run(prop, tier):
                         if len(cov["drift"]) < 6:
                             cov["drift"].append(dict(drift, tid=tid, config=name))
         if prop == "C13":
+            # code -> spec: seeded random walks over the real objects, validated by TLC against DilationSub.tla
+            rng = random.Random(seed * 7919 + 13)
+            tv = {"walks": 0, "accepted": 0, "rejected": []}
+            walk_cfgs = {
+                "walk_basic": (dict(Names={"a"}, Expected=UNSET, MaxOpens=2, MaxWrites=2, Half=False, Openers={"L", "F"}), None, False),
+                "walk_expected": (dict(Names={"a", "u"}, Expected=EXPF, MaxOpens=2, MaxWrites=1, Half=False, Openers={"L", "F"}), {"F": ["a"]}, False),
+                "walk_half": (dict(Names={"a"}, Expected=UNSET, MaxOpens=2, MaxWrites=1, Half=True, Openers={"L", "F"}), None, True),
+            }
+            for name, (consts, expected, half) in walk_cfgs.items():
+                traces = {}
+                for _ in range(25 if quick else 250):
+                    tid += 1
+                    run_, lines = sub_walk(tid, consts, expected, half, rng)
+                    rec = finish_sub(run_, tid, expected)
+                    rec["origin"], rec["config"] = "real-walk", name
+                    records.append(rec)
+                    meta[tid] = {"schedule": run_.schedule, "config": name}
+                    traces[tid] = lines
+                res, r = common.trace_validate(wd, "DilationSub", consts, traces, SUB_T_PROJ, "MC_C13_trace_" + name)
+                for t, (reached, total) in sorted(res.items()):
+                    tv["walks"] += 1
+                    if reached == total:
+                        tv["accepted"] += 1
+                    else:
+                        ndrift += 1
+                        if len(tv["rejected"]) < 6:
+                            tv["rejected"].append({"tid": t, "config": name, "matched_lines": reached, "of": total,
+                                                   "next_line": traces[t][reached] if reached < total else None,
+                                                   "schedule": meta[t]["schedule"][:reached + 1]})
+            cov["trace_validation"] = dict(tv, rule="each walk = up to 30 application / delivery steps chosen among what the two real Managers "
+                                           "offer; accepted = DilationSub.tla has a behaviour with the same actions and the same projection "
+                                           "(SubChannel states, application events per end, names, listeners, open sets, held OPENs) after every step")
             n = 0
             for expected, opens, listen in ((["a"], ["a"], ["a"]), (["a"], ["u"], ["a"]), (["a"], ["u", "a", "u"], ["a"]), ([], ["u"], []),
                                             (["a", "b"], ["b", "a", "u"], ["a", "b"]), (["a"], ["a", "a"], ["a"])):
